@@ -17,7 +17,9 @@ from .. import tables_c05 as tc
 from ..atoms import Pool, resolve, atom_key, key_to_atom, spec_class, DT
 
 PROPERTY = "C05"
-RULE = ("sweep (exhaustive): for each of the 92 .nff tables every node, node +-8/+-64 ulp, every interval midpoint, "
+RULE = ("sweep (exhaustive): for each of the 92 .nff tables every node (both as the decimal keV value and as exactly the "
+        "float the library serves in sftable[0]; at the latter, energy= route, scalar and vector, the tabulated f1/f2 "
+        "of the row is required to 4 eps whatever the neighbouring rows are), node +-8/+-64 ulp, every interval midpoint, "
         "both range ends (exact, just inside, just outside, far outside) by energy= and by the equivalent wavelength=, "
         "scalar and vector. generated: Hypothesis draws an atom (element, isotope, ion, isotope ion, D/T, D/T ion), "
         "1-6 energies (node +-k ulp, point inside an interval, interval at/next to an absorption edge, range end +-k ulp, "
@@ -34,9 +36,12 @@ RULE = ("sweep (exhaustive): for each of the 92 .nff tables every node, node +-8
 ASSUMPTIONS = [
     "atom.mass, element.density (C06) and the parsed composition (C01) are taken as given; a string whose parsed "
     "composition differs from its derivation tree is counted inconclusive, not judged here",
-    "a node energy in keV is the file's eV value / 1000 up to rounding: the reference accepts the interpolant over "
-    "E(1 +- 8 eps), so errors below |slope| * 8 ulp(E) + 32 eps * |f| are not seen; exactly at E_min/E_max (as the "
-    "nearest double of the decimal keV value, energy= route) a value (not NaN) is required",
+    "a node energy in keV is the file's eV value / 1000 up to rounding: for energies that are not taken from "
+    "sftable[0] and for the wavelength= route the reference accepts the interpolant over E(1 +- 8 eps), so errors "
+    "below |slope| * 8 ulp(E) + 32 eps * |f| are not seen there; exactly at E_min/E_max (as the nearest double of the "
+    "decimal keV value, energy= route) a value (not NaN) is required",
+    "exact-node cases take only the x-coordinates from el.xray.sftable[0] (checked to be within 4 eps of eV/1000 of the "
+    "independent reader, same row count); the required values come from the reader, matched by row index",
     "si.nff has one non-increasing row pair (1839.0, 1838.90 eV): energies in [1838.80, 1860] eV are not judged for "
     "Si and compounds containing Si (numpy.interp is undefined there)",
     "constants r_e, N_A, h, c are the CODATA 2006 values quoted in constants.py",
@@ -82,6 +87,28 @@ def nff(sym):
     return E["nff"][sym]
 
 
+def grid(sym):
+    """Node energies (keV) exactly as the library serves them (el.xray.sftable[0]); only these
+    x-coordinates are taken from the library, the values come from the independent reader by row."""
+    E = env()
+    sym = "H" if sym in DT else sym
+    g = E.setdefault("grid", {})
+    if sym not in g:
+        g[sym] = [float(x) for x in E["table"].symbol(sym).xray.sftable[0]]
+    return g[sym]
+
+
+def exact_row(tab, spec, mode):
+    """Row index if *spec* asks for exactly a served node energy through energy=, else None."""
+    if mode != "E":
+        return None
+    if spec[0] == "exact":
+        return spec[1] % len(tab.Ek)
+    if spec[0] == "exact1":
+        return min(max(tab.first_f1 + spec[1], 0), len(tab.Ek) - 1)
+    return None
+
+
 def isnan(x):
     return x != x
 
@@ -106,6 +133,8 @@ def energy_spec():
         st.tuples(st.just("end"), st.integers(0, 1), st.sampled_from(END_ULPS)).map(list),
         st.tuples(st.just("log"), st.floats(0.0, 1.0)).map(list),
         st.tuples(st.just("in"), st.floats(0.0, 1.0)).map(list),
+        st.tuples(st.just("exact"), st.integers(0, 800)).map(list),
+        st.tuples(st.just("exact1"), st.sampled_from([-1, 0, 0, 0, 1])).map(list),
     )
 
 
@@ -118,6 +147,8 @@ def energy_spec_compound():
                   st.floats(0.0, 1.0)).map(list),
         st.tuples(st.just("mid"), st.integers(70, 800), st.floats(0.001, 0.999)).map(list),
         st.tuples(st.just("node"), st.integers(70, 800), st.sampled_from(ULPS)).map(list),
+        st.tuples(st.just("exact"), st.integers(60, 800)).map(list),
+        st.tuples(st.just("exact1"), st.sampled_from([0, 0, 1])).map(list),
         energy_spec(),
     )
 
@@ -148,6 +179,12 @@ def to_energy(tab, spec):
         return 0.03 * 1000.0 ** spec[1]
     if kind == "abs":
         return float(spec[1])
+    if kind in ("exact", "exact1"):
+        g = grid(tab.symbol)
+        if len(g) != n:
+            raise Violation("c05:sftable:grid", "%s.xray.sftable has %d rows, %s.nff has %d" % (tab.symbol, len(g), tab.symbol.lower(), n),
+                            {"kind": "grid", "symbol": tab.symbol})
+        return g[exact_row(tab, spec, "E")]
     raise ValueError(spec)
 
 
@@ -256,7 +293,7 @@ def check_factors(ctx, value, strict_ends=False):
                         % (len(es), getattr(f1, "shape", None), getattr(f2, "shape", None)), case)
     for i, e in enumerate(es):
         for col, got in ((1, f1[i]), (2, f2[i])):
-            acc = tab.accept(col, e)
+            acc = tab.accept(col, e, exact_row=exact_row(tab, especs[i], mode))
             if acc is None:
                 ctx.count("excluded:nonmonotonic-interval")
                 continue
@@ -315,7 +352,7 @@ def check_element_sld(ctx, value):
     route = "energy" if mode == "E" else "wavelength"
     for i, e in enumerate(es):
         for col, got in ((1, rho[i]), (2, irho[i])):
-            acc = tab.accept(col, e)
+            acc = tab.accept(col, e, exact_row=exact_row(tab, especs[i], mode))
             if acc is None:
                 ctx.count("excluded:nonmonotonic-interval")
                 continue
@@ -339,9 +376,10 @@ def deiso(tree):
     return {"g": [group(g) for g in tree["g"]], "s": tree["s"], "d": tree["d"]}
 
 
-def compound_ref(comp_f, masses, density, e):
+def compound_ref(comp_f, masses, density, e, exact=None):
     """Reference for (rho, irho) at energy e: per column (lo, hi, nan_ok, certain_nan, tol) already in SLD
-    units, or None if e touches a non-monotonic stretch of a constituent table."""
+    units, or None if e touches a non-monotonic stretch of a constituent table.  *exact* = (symbol, row):
+    e is exactly that served node of that table, whose tabulated value is then required."""
     m = sum(n * masses[k] for k, n in comp_f.items())
     K = R_E * N_A * density / m * 1e-8
     out = []
@@ -349,7 +387,8 @@ def compound_ref(comp_f, masses, density, e):
         lo = hi = scale = 0.0
         nan_ok = certain = False
         for k, n in comp_f.items():
-            acc = nff(env()["table"][k[0]].symbol).accept(col, e)
+            t = nff(env()["table"][k[0]].symbol)
+            acc = t.accept(col, e, exact_row=(exact[1] if exact is not None and exact[0] == t.symbol else None))
             if acc is None:
                 return None
             a, b, nk, s = acc
@@ -429,10 +468,14 @@ def check_compound(ctx, value):
     masses = dict((kk, key_to_atom(table, kk).mass) for kk in keys)
 
     refs = [compound_ref(comp_f, masses, density, e) for e in es]
-    if any(r is None for r in refs):
+    # energies that are exactly a served node of the reference table: the energy= route must give the tabulated value
+    rows = [exact_row(tab, sp, "E") for sp in especs]
+    refs_x = [r if row is None else compound_ref(comp_f, masses, density, e, exact=(tab.symbol, row))
+              for r, row, e in zip(refs, rows, es)]
+    if any(r is None for r in refs + refs_x):
         ctx.count("excluded:nonmonotonic-interval")
-        keep = [i for i, r in enumerate(refs) if r is not None]
-        es, refs = [es[i] for i in keep], [refs[i] for i in keep]
+        keep = [i for i in range(len(es)) if refs[i] is not None and refs_x[i] is not None]
+        es, refs, refs_x = [es[i] for i in keep], [refs[i] for i in keep], [refs_x[i] for i in keep]
         if not es:
             return
         scalar = scalar and len(es) == 1
@@ -457,17 +500,19 @@ def check_compound(ctx, value):
     what = "xray_sld(%r, density=%r, %s=%r)" % (s, density, key, val)
     rho, irho = unpack(lib_call(case, "xray_sld", lambda: xsf.xray_sld(s, density=density, **{key: val}), has_dt_ion), what)
     for i in range(len(es)):
-        judge_sld(rho[i], refs[i][0], "c05:sld:%s:rho" % route, what + " rho[%d]" % i, case)
-        judge_sld(irho[i], refs[i][1], "c05:sld:%s:irho" % route, what + " irho[%d]" % i, case)
+        ref = refs_x[i] if mode == "E" else refs[i]
+        judge_sld(rho[i], ref[0], "c05:sld:%s:rho" % route, what + " rho[%d]" % i, case)
+        judge_sld(irho[i], ref[1], "c05:sld:%s:irho" % route, what + " irho[%d]" % i, case)
 
     # 2. the other route agrees (both are judged against the same reference)
     okey, oval = ("wavelength", lam) if mode == "E" else ("energy", es)
     oval = oval[0] if scalar else list(oval)
     rho2, irho2 = unpack(lib_call(case, "xray_sld", lambda: xsf.xray_sld(f, density=density, **{okey: oval})), "other route")
     for i in range(len(es)):
-        judge_sld(rho2[i], refs[i][0], "c05:sld:energy-vs-wavelength:rho", "xray_sld(%r, density=%r, %s=%r) rho[%d]"
+        ref = refs[i] if mode == "E" else refs_x[i]
+        judge_sld(rho2[i], ref[0], "c05:sld:energy-vs-wavelength:rho", "xray_sld(%r, density=%r, %s=%r) rho[%d]"
                   % (s, density, okey, oval, i), case)
-        judge_sld(irho2[i], refs[i][1], "c05:sld:energy-vs-wavelength:irho", "xray_sld(%r, density=%r, %s=%r) irho[%d]"
+        judge_sld(irho2[i], ref[1], "c05:sld:energy-vs-wavelength:irho", "xray_sld(%r, density=%r, %s=%r) irho[%d]"
                   % (s, density, okey, oval, i), case)
 
     # 3. vector element equals scalar call
@@ -696,8 +741,16 @@ def task_sweep(ctx, shard, nshards):
         for ch in chunks([["mid", i, 0.5] for i in range(n - 1)], 32):
             work.append(([spec, "E", ch, False], False))
             work.append(([spec, "W", ch, False], False))
+        # exactly the served node energies, energy= route: the tabulated value is required
+        g = grid(sym)
+        if len(g) != n or any(abs(a - b) > 4 * EPS * b for a, b in zip(g, tab.Ek)):
+            ctx.violation("c05:sftable:grid", "%s.xray.sftable[0] is not the energy column of %s.nff / 1000"
+                          % (sym, sym.lower()), {"kind": "grid", "symbol": sym})
+            continue
+        for ch in chunks([["exact", i] for i in range(n)], 32):
+            work.append(([spec, "E", ch, False], False))
         for i in range(n):
-            work.append(([spec, "E", [["node", i, 0]], True], True))
+            work.append(([spec, "E", [["exact", i]], True], True))
         for side in (0, 1):
             for k in END_ULPS:
                 for mode in ("E", "W"):
@@ -790,5 +843,10 @@ def replay(ctx, case):
         check_compound(ctx, case["value"])
     elif kind == "f0":
         check_f0(ctx, case["value"])
+    elif kind == "grid":
+        g, tab = grid(case["symbol"]), nff(case["symbol"])
+        if len(g) != len(tab.Ek) or any(abs(a - b) > 4 * EPS * b for a, b in zip(g, tab.Ek)):
+            raise Violation("c05:sftable:grid", "%s.xray.sftable[0] is not the energy column of the .nff file / 1000"
+                            % case["symbol"], case)
     else:
         raise ValueError("unknown case kind %r" % kind)
